@@ -528,3 +528,31 @@ func controllingConds(b *ssa.BasicBlock) []condEdge {
 
 // fnOfInstr names the function containing in.
 func fnOfInstr(in ssa.Instruction) string { return fnName(in.Parent()) }
+
+// returnedValue undoes go/ssa's defer spill: in functions with defers a
+// `return v` becomes `*res = v; rundefers; t = *res; return t`. Given the i-th
+// result of ret it returns v.
+func returnedValue(ret *ssa.Return, i int) ssa.Value {
+	r := ret.Results[i]
+	ld, ok := r.(*ssa.UnOp)
+	if !ok || ld.Op != token.MUL {
+		return r
+	}
+	al, ok := ld.X.(*ssa.Alloc)
+	if !ok {
+		return r
+	}
+	var last ssa.Value
+	for _, in := range ret.Block().Instrs {
+		if in == ssa.Instruction(ld) {
+			break
+		}
+		if st, ok := in.(*ssa.Store); ok && st.Addr == ssa.Value(al) {
+			last = st.Val
+		}
+	}
+	if last != nil {
+		return last
+	}
+	return r
+}
